@@ -676,6 +676,11 @@ func runStub(e *env) error {
 			lines[i] = (&Line{}).S("stubskip").S("package-main").String()
 			return nil
 		}
+		if d.pkg == "documentation" {
+			// go/build ignores the files of a package documentation: nothing to bind against (C07 decides that)
+			lines[i] = (&Line{}).S("stubskip").S("package-documentation").String()
+			return nil
+		}
 		d.src = out
 		d.env = newTypeEnv(tree, "g.")
 		d.genCases(g, perDesc)
